@@ -47,12 +47,14 @@ PROPS["C02"] = {
     "assumptions": [],
 }
 PROPS["C05"] = {
+    "extra_property_files": ["C03_pipeline"],
     "level_text": "Theorems (Properties/C05.v): Header.Valid holds iff type upper-cases to JWT and the algorithm lower-cases to one of the two names (so 'none', empty, prefixes and extensions are refused); accepted => exactly three segments each base64-decodable, valid header, declared version <= 2 (library version read from the code), operator/account/user/activation only versions 1 and 2, never cluster/server; same segment/header gate for DecodeGeneric. Tie: the full grid header type x algorithm x version x kind x placement x layout (20k correctly signed tokens) plus segment/padding variants and the envelope of real Encode output. The Encode-envelope half is checked on real tokens; its theorem (base64url model) is in Properties/C05_encode.v when present.",
     "level_note": DEC_NOTE,
     "assumptions": ["ASCII case mapping (non-ASCII header strings are outside the model)"],
 }
 
 PROPS["C03"] = {
+    "extra_property_files": ["C03_pipeline"],
     "level_text": "Theorems (Properties/C03.v): a META-THEOREM proved once for every schema and value - marshal then unmarshal into a compatible preset gives the value back up to nil=empty - instantiated on the schemas GENERATED from the code's struct tags by reflection on every run (well-formedness re-established by vm_compute: distinct JSON names, known custom codecs, no ambiguously dropped field); per-kind corollary through the version-2 loaders (presets, JetStream clearing) with the two recorded findings K1/K2 as visible guards and a refutation witness. Tie: random claims of all 7 kinds generated by reflection (all optional sections, int64 extremes, nil vs empty, special/non-ASCII strings, scopes by pointer and by value): real Encode/Decode/typed decoder/re-encode compared field by field (400 per kind) and the model's enc tree / dec value compared with the real payload tree and decoded object in Coq (40 per kind).",
     "level_note": NOTE_COMMON + "encoding/json's text layer (escaping, number syntax, key case folding beyond ASCII, duplicate keys) is outside the model; free-form generic data is restricted to float64-exact integers.",
     "assumptions": ["JSON text layer: parse(print(tree)) = tree", "generic data numbers are float64-exact"],
